@@ -227,9 +227,12 @@ def o_names(spec):
     syms = [sympy.Symbol(n) for n in names]
     got = [s.name for s in must(lambda: sorted(syms, key=natural_key), "sorted(key=natural_key)")]
     want = sorted(names, key=_tokens)
-    require(got == want, lambda: f"natural order {got}, expected {want}")
-    for s in syms:
-        require(list(natural_key_revlex(s)) == list(reversed(natural_key(s))), "natural_key_revlex is not the reversed natural key")
+    # any order of names whose token lists are equal ("x7" / "x007") is accepted: the statement fixes the numeric order only
+    require(sorted(got) == sorted(names) and all(_tokens(p) <= _tokens(q) for p, q in zip(got, got[1:])), lambda: f"natural order {got}, expected {want}")
+    got_rev = [s.name for s in must(lambda: sorted(syms, key=natural_key_revlex), "sorted(key=natural_key_revlex)")]
+    rev = lambda n: list(reversed(_tokens(n)))
+    require(sorted(got_rev) == sorted(names) and all(rev(p) <= rev(q) for p, q in zip(got_rev, got_rev[1:])),
+            lambda: f"reverse-lexicographic natural order {got_rev}, expected {sorted(names, key=rev)}")
     nt = False
     for x in names:
         for y in names:
